@@ -73,10 +73,15 @@ Definition sub_of_raw (raw : Z) (ev : Z) : option bool :=
    (ep_reg), which must lie in the window [ep_lo, ep_hi] the harness measured:
    ep_lo requests had been completed when its Start was called, ep_hi when every
    registration was known to be complete *)
+(* ep_gone: the position in sigma from which on the plugin is disconnected (it stopped before that
+   request was issued); a position >= length sigma means it stayed *)
 Record ev_plugin := {
   ep_id : N; ep_idx : string; ep_name : string; ep_raw : Z;
-  ep_reg : nat; ep_lo : nat; ep_hi : nat
+  ep_reg : nat; ep_lo : nat; ep_hi : nat; ep_gone : nat
 }.
+
+(* registered and still connected when request k of sigma is processed *)
+Definition present (p : ev_plugin) (k : nat) : bool := (Nat.leb (ep_reg p) k && Nat.ltb k (ep_gone p))%bool.
 
 Fixpoint find_plugin (id : N) (l : list ev_plugin) : option ev_plugin :=
   match l with
@@ -115,14 +120,14 @@ Definition block_ok (pl : list ev_plugin) (k : nat) (rq : tk_req) (blk : N * lis
    forallb (fun pid =>                                       (* only registered, subscribed plugins *)
      match find_plugin pid pl with
      | Some p => match sub_of_raw (ep_raw p) (snd rq) with
-                 | Some b => b && Nat.leb (ep_reg p) k
+                 | Some b => b && present p k
                  | None => false
                  end
      | None => false
      end) pids &&
    forallb (fun p =>                                         (* every registered, subscribed plugin *)
      match sub_of_raw (ep_raw p) (snd rq) with
-     | Some true => if Nat.leb (ep_reg p) k then nmem (ep_id p) pids else true
+     | Some true => if present p k then nmem (ep_id p) pids else true
      | _ => true
      end) pl &&
    (* the caller's result: no error, and exactly the contributions of the plugins called *)
@@ -189,7 +194,11 @@ Definition fault_ok (plugins : list (N * string * string)) (faulty : N) (ev : Z)
       match fo_err o with Some e => contains msg e | None => false end &&
       (fo_nil o || negb (returns_value ev)) &&
       leqb String.eqb (fo_tokens o) [] &&
-      leqb N.eqb (not_faulty (fo_handled o)) before_faulty
+      leqb N.eqb (not_faulty (fo_handled o)) before_faulty &&
+      (* a veto does not drop the plugin: the follow-up request is served by all of them *)
+      is_none (fo_err o2) &&
+      leqb String.eqb (fo_tokens o2) (names plugins) &&
+      leqb N.eqb (fo_handled o2) (map (fun p => fst (fst p)) plugins)
   | FTransport _ | FHang | FStall =>
       (* the request succeeds with the intact contributions of the others (and the faulty
          plugin's own only if its reply had gone through), in time; afterwards the plugin
@@ -207,6 +216,35 @@ Definition fault_ok (plugins : list (N * string * string)) (faulty : N) (ev : Z)
       leqb N.eqb (fo_handled o2) healthy_ids &&
       negb faulty_handled_after
   end%bool.
+
+(* ---------- C07: a plugin that fails while it is being synchronised (before any request) *)
+
+(* what was observed after a plugin registered, was configured and then failed in Synchronize
+   (error / no answer within the time-out / disconnect): a request issued inside
+   BlockPluginSync()/Unblock(), then the registration of a further healthy plugin, then a second
+   request.  Each either completed within the bound or was still blocked when the harness gave up. *)
+Record regfail_obs := {
+  rf_done1 : bool; rf_obs1 : fault_obs;        (* the blocked-sync request *)
+  rf_late_registered : bool;                   (* the late plugin's registration completed in time *)
+  rf_done2 : bool; rf_obs2 : fault_obs;        (* the request after it *)
+  rf_failed_handled : bool                     (* the failed plugin's handler ever ran *)
+}.
+
+(* healthy: (id, idx, name) of the plugins registered before, in index order; late: the one registered after *)
+Definition regfail_ok (healthy : list (N * string * string)) (late : N * string * string) (ev : Z) (o : regfail_obs) : bool :=
+  let names (l : list (N * string * string)) := if has_response ev then sort_strs (map snd l) else [] in
+  let idsof (l : list (N * string * string)) := map (fun p => fst (fst p)) l in
+  let all := healthy ++ [late] in
+  (rf_done1 o && is_none (fo_err (rf_obs1 o)) &&
+   leqb String.eqb (fo_tokens (rf_obs1 o)) (names healthy) &&
+   leqb N.eqb (fo_handled (rf_obs1 o)) (idsof healthy) &&
+   rf_late_registered o &&
+   rf_done2 o && is_none (fo_err (rf_obs2 o)) &&
+   leqb String.eqb (fo_tokens (rf_obs2 o)) (names all) &&
+   nodupb (fo_handled (rf_obs2 o)) &&
+   Nat.eqb (length (fo_handled (rf_obs2 o))) (length all) &&
+   forallb (fun i => nmem i (fo_handled (rf_obs2 o))) (idsof all) &&
+   negb (rf_failed_handled o))%bool.
 
 (* ================================================================== *)
 (** * C19: unsolicited updates *)
